@@ -246,6 +246,12 @@ def report(args, P, results, known, seed, t0):
     out_lines = []
     exit_code = 0
     replay_dir = os.path.join(VERIF, "replays", prop)
+    if os.path.isdir(replay_dir) and not args.only:
+        for fn in os.listdir(replay_dir):            # replay files always describe the current run
+            try:
+                os.unlink(os.path.join(replay_dir, fn))
+            except OSError:
+                pass
     vcount = 0
     for v in violations:
         os.makedirs(replay_dir, exist_ok=True)
